@@ -54,9 +54,13 @@ PROPS = {
     "C09": dict(
         runs=[bp_sys("C09", 50, 1000)],
         rule="whole-processor runs over (send_batch_size, send_batch_max_size, timeout) incl. zeros and max==size with real timers; "
-             "the shard's recorded input sequence is replayed through the Coq model and every send (trigger, size) must match",
-        trusted_base=BP_TB + ["wall-clock latency of timers and goroutine scheduling is not modelled: the deadline is checked against a generous bound (5x timeout + 2 s) and reported as evidence"],
-        assumptions=["timer fires are taken from the event log; time itself is not part of the model comparison"],
+             "the shard's recorded input sequence is replayed through the Coq model and every send (trigger, size) must match; "
+             "for runs without a concurrency limit the timed trace (microsecond stamps of the event log) of every shard must be accepted by Batch/Time.v "
+             "(time_mismatch: a timer case no earlier than 5 ms before the model's expiry, no event later than expiry + delta) and every (accept, send) time pair of every "
+             "request/export must satisfy send <= accept + timeout + delta (time_propfail); one run in 20 (plus a third of the others) is a steady trickle below send_batch_size",
+        trusted_base=BP_TB + ["goroutine scheduling latency, the choice of select among ready cases and a send blocked on the semaphore are the parameter delta of well_timed (5x timeout + 200 ms on trickle runs, + 2 s otherwise)",
+                              "the clock of the theorem is the time at which the shard loop handles an event; the delay between a caller's Consume call and the loop's receive is not modelled"],
+        assumptions=["time stamps are those of the verif event log (monotonic clock, taken under the log's mutex at the hook)"],
     ),
     "C06": dict(
         runs=[bp_sys("C06", 50, 1500)],
@@ -165,7 +169,8 @@ PROPS = {
     "C01": dict(
         runs=[dict(harness="codec", name="rt_traces", args=lambda tier, seed, casedir, coq: ["rt_traces", "--n", str(q(tier, 70, 3000)), "--seed", str(seed)], timeout=3000, coq_timeout=3000)],
         rule="stream histories of 1-5 trace batches (1-7 spans per scope, 0-2 resources x 0-2 scopes, events, links, every AnyValue type incl. nested lists/maps, empty keys and unset values, boundary numerics, "
-             "near-identical resources/scopes differing only in value type or embedded delimiters, repeated and fresh strings) through the real producer and consumer; per batch (a) the equivalence predicate of Otlp/Equiv.v "
+             "near-identical resources/scopes differing only in value type or embedded delimiters, repeated and fresh strings; a quarter of the histories low-entropy: every name/key/value/timestamp from a pool of one or two, "
+             "so sorted groups span tables and repeat across batch boundaries) through the real producer and consumer, the consumer lagging 0-2 batches behind the producer (decoded in stream order); per batch (a) the equivalence predicate of Otlp/Equiv.v "
              "evaluated in Coq on real input vs real output, (b) the real attribute tables and id columns decoded by the Coq model and compared with what the real consumer attached to every row, and re-encoded to the real parent-id column",
         trusted_base=["modelled, not verified: arrow-go (builders, IPC transport, dictionaries), zstd, the CBOR byte codec (nested values are read back through common.Deserialize)",
                       "the scalar columns of the main tables are not modelled cell by cell (tie: equivalence predicate on real I/O)",
@@ -224,8 +229,10 @@ PROPS = {
                  args=lambda tier, seed, casedir, coq: ["indep", "--n", str(q(tier, 25, 600)), "--seed", str(seed)], timeout=3000),
         ],
         rule="genssa: every Store / MapUpdate whose address derives from a package-level variable, outside package initialisation, in the SSA form of everything reachable from pkg/otel/arrow_record "
-             "(must be within the protobuf-registration whitelist); indep: 2-8 producer/consumer pairs with different options and histories run concurrently in goroutines, each stream's decoded output "
-             "compared with the output of the same stream run alone",
+             "(must be within the protobuf-registration whitelist), and every package-level variable whose type can reach memory (must be an error value, an immutable library prototype or a read-only lookup table); "
+             "indep: 2-8 producer/consumer pairs with different options and histories (every other case: 2-4 streams of one signal sharing a vocabulary of one or two names/keys/values in large tables) "
+             "run (a) concurrently in free goroutines and (b) three times under a cooperative scheduler — one goroutine at a time, hand-over decided by the PRNG at every allocator call of the producer, "
+             "i.e. inside the encoders' loops — each stream's decoded output compared with the output of the same stream run alone",
         trusted_base=["data-race freedom is outside the model (Go memory model); the go/ssa extractor", "instances share no state by construction (each NewProducer/NewConsumer builds its own builders, allocators, maps)"],
         assumptions=["-race runs are supporting evidence in the thorough tier only"],
     ),
